@@ -96,6 +96,44 @@ TEMPLATES = [
     ('LD (nn),HL FFFF', [0x22, 0xFF, 0xFF], {}),
 ]
 
+# straddles: 16-bit data/stack accesses and multi-byte instructions lying across every 16K boundary
+for _b in (0x3FFF, 0x7FFF, 0xBFFF, 0xFFFF):
+    _n = '%04X' % _b
+    TEMPLATES += [
+        ('PUSH BC SP=%04X' % ((_b + 2) & 0xFFFF), [0xC5], {'SP': (_b + 2) & 0xFFFF}),
+        ('POP BC SP=' + _n, [0xC1], {'SP': _b}),
+        ('EX (SP),HL SP=' + _n, [0xE3], {'SP': _b}),
+        ('EX (SP),IX SP=' + _n, [0xDD, 0xE3], {'SP': _b}),
+        ('EX (SP),IY SP=' + _n, [0xFD, 0xE3], {'SP': _b}),
+        ('CALL nn SP=%04X' % ((_b + 2) & 0xFFFF), [0xCD, 0x00, 0x51], {'SP': (_b + 2) & 0xFFFF}),
+        ('RET SP=' + _n, [0xC9], {'SP': _b}),
+        ('RETI SP=' + _n, [0xED, 0x4D], {'SP': _b}),
+        ('RST 16 SP=%04X' % ((_b + 2) & 0xFFFF), [0xD7], {'SP': (_b + 2) & 0xFFFF}),
+        ('PUSH IX SP=%04X' % ((_b + 2) & 0xFFFF), [0xDD, 0xE5], {'SP': (_b + 2) & 0xFFFF}),
+        ('POP IY SP=' + _n, [0xFD, 0xE1], {'SP': _b}),
+        ('LD (nn),HL nn=' + _n, [0x22, _b & 0xFF, _b >> 8], {}),
+        ('LD HL,(nn) nn=' + _n, [0x2A, _b & 0xFF, _b >> 8], {}),
+        ('LD (nn),DE nn=' + _n, [0xED, 0x53, _b & 0xFF, _b >> 8], {}),
+        ('LD SP,(nn) nn=' + _n, [0xED, 0x7B, _b & 0xFF, _b >> 8], {}),
+        ('LD IX,(nn) nn=' + _n, [0xDD, 0x2A, _b & 0xFF, _b >> 8], {}),
+        ('LD (nn),IY nn=' + _n, [0xFD, 0x22, _b & 0xFF, _b >> 8], {}),
+        ('LDIR repeat HL=' + _n, [0xED, 0xB0], {'BC': 2, 'HL': _b, 'DE': 0x9000}),
+        ('LDIR repeat DE=' + _n, [0xED, 0xB0], {'BC': 2, 'DE': _b, 'HL': 0x9000}),
+        ('LDDR repeat DE=%04X' % ((_b + 1) & 0xFFFF), [0xED, 0xB8], {'BC': 2, 'DE': (_b + 1) & 0xFFFF, 'HL': 0x9000}),
+        ('INC (IX+1) IX=%04X' % ((_b - 1) & 0xFFFF), [0xDD, 0x34, 0x01], {'IX': (_b - 1) & 0xFFFF}),
+        ('INC (IX+1) IX=' + _n, [0xDD, 0x34, 0x01], {'IX': _b}),
+        ('LD BC,nn PC=' + _n, [0x01, 0x34, 0x12], {'PC': _b}),
+        ('LD BC,nn PC=%04X' % ((_b - 1) & 0xFFFF), [0x01, 0x34, 0x12], {'PC': (_b - 1) & 0xFFFF}),
+        ('LD (IX+1),n PC=%04X' % ((_b - 2) & 0xFFFF), [0xDD, 0x36, 0x01, 0x77], {'PC': (_b - 2) & 0xFFFF}),
+        ('RLC (IX+1) PC=%04X' % ((_b - 1) & 0xFFFF), [0xDD, 0xCB, 0x01, 0x06], {'PC': (_b - 1) & 0xFFFF}),
+        ('CALL nn PC=%04X' % ((_b - 1) & 0xFFFF), [0xCD, 0x00, 0x51], {'PC': (_b - 1) & 0xFFFF}),
+        ('JR PC=' + _n, [0x18, 0x02], {'PC': _b}),
+        ('DJNZ taken PC=' + _n, [0x10, 0x02], {'PC': _b, 'BC': 0x0202}),
+        ('LDIR repeat PC=' + _n, [0xED, 0xB0], {'BC': 2, 'PC': _b}),
+        ('NEG PC=' + _n, [0xED, 0x44], {'PC': _b}),
+        ('IN A,(FE) PC=' + _n, [0xDB, 0xFE], {'PC': _b, 'A': 0x40}),
+    ]
+
 CHUNKS = 32
 
 def variants():
